@@ -5,6 +5,7 @@ import (
 	"fmt"
 	"strings"
 
+	"github.com/Trendyol/go-dcp/wrapper"
 	"github.com/couchbase/gocbcore/v10"
 
 	"verif/vrt"
@@ -25,13 +26,14 @@ type SaveWinParams struct {
 	PreSave  bool `json:"presave"`  // one successful save before the window (documents already exist)
 	File     bool `json:"file"`
 	Reserved bool `json:"reserved"` // a library-internal-key document arrives on vb0 inside the window (absorbed, not dirtying)
+	Inject   bool `json:"inject"`   // a complete successful save happens between two statements of the acknowledging thread, at every point
 }
 
 func init() {
 	scenarios["c05_savewindow"] = func(raw json.RawMessage) *vrt.Scenario {
 		var p SaveWinParams
 		_ = json.Unmarshal(raw, &p)
-		return &vrt.Scenario{Name: "c05_savewindow", Main: func() { saveWindow(p) }, MaxSteps: 50000}
+		return &vrt.Scenario{Name: "c05_savewindow", Main: func() { saveWindow(p) }, MaxSteps: 50000, FreeChoices: p.Inject}
 	}
 	register(&Property{
 		ID:        "C05",
@@ -53,6 +55,7 @@ func init() {
 			}
 			out = append(out, Instance{Scenario: "c05_savewindow", Params: mustJSON(SaveWinParams{Savers: 1, Faults: true, PreSave: true}), Bound: 2, Shards: 4})
 			out = append(out, Instance{Scenario: "c05_savewindow", Params: mustJSON(SaveWinParams{Savers: 1, Reserved: true, PreSave: true}), Bound: 2, Shards: 4})
+			out = append(out, Instance{Scenario: "c05_savewindow", Params: mustJSON(SaveWinParams{Inject: true, PreSave: true}), Bound: 1, Shards: 4, Note: "a whole save injected at every scheduling point of the acknowledging thread"})
 			if tier == "thorough" {
 				for i := range out {
 					out[i].Bound = 3
@@ -108,10 +111,10 @@ func saveWindow(p SaveWinParams) {
 	clock := 0
 	tick := func() int { clock++; return clock }
 	type ival struct {
-		vb     uint16
-		seq    uint64
-		a, b   int
-		ok     bool
+		vb   uint16
+		seq  uint64
+		a, b int
+		ok   bool
 	}
 	var settles, saves []*ival
 	rawAck := ack
@@ -134,6 +137,9 @@ func saveWindow(p SaveWinParams) {
 	ack = func(vb uint16, seq uint64) { ackAdv(vb, seq) }
 	// lostBy explains why positions of vb above `stored` are not durable
 	lostBy := func(vb uint16, stored uint64) string {
+		if p.Inject {
+			return "a complete save ran between two steps of the acknowledgement (nothing was in flight concurrently)"
+		}
 		for _, st := range settles {
 			if st.vb != vb || st.seq <= stored {
 				continue
@@ -160,6 +166,16 @@ func saveWindow(p SaveWinParams) {
 			}
 		}
 	}
+	// a dirty mark must go into the dirty set that is current at that moment; one written into a set
+	// that a completed save has already replaced can never be seen by any later save
+	wrapper.VerifOnStoreIf = func(m any, key any) {
+		var cur *wrapper.ConcurrentSwissMap[uint16, bool]
+		vrt.Atomically(func() { _, cur, _ = e.Stream.GetOffsets() })
+		if dm, ok := m.(*wrapper.ConcurrentSwissMap[uint16, bool]); ok && dm != cur {
+			vrt.Failf("the dirty mark of vb%v was written into a dirty set that had already been replaced by a completed save (stale reference) [thread %s]", key, vrt.ThreadName())
+		}
+	}
+	defer func() { wrapper.VerifOnStoreIf = nil }()
 	inWindow := true
 	if p.Faults {
 		c.Fault = func(r *gocbcore.SimRequest) gocbcore.SimAnswer {
@@ -179,7 +195,21 @@ func saveWindow(p SaveWinParams) {
 	_ = ack0
 	var wg vrt.WaitGroup
 	vrt.Window(true)
+	if p.Inject {
+		p.Savers = 0
+		k := vrt.Choose(80, true, "save-at-point-of-acker")
+		vrt.InjectAtomic("ackerA", k, func() {
+			sv := &ival{a: tick()}
+			saves = append(saves, sv)
+			e.Stream.Save()
+			sv.b = tick()
+			sv.ok = true
+		})
+	}
 	wg.Add(2 + p.Savers)
+	if p.Inject {
+		wg.Done() // no second acknowledging thread: nothing runs concurrently with the injected save
+	}
 	vrt.GoNamed("ackerA", func() {
 		defer wg.Done()
 		if !p.PreSave {
@@ -194,28 +224,30 @@ func saveWindow(p SaveWinParams) {
 			settle(0, 3)
 		}
 	})
-	vrt.GoNamed("ackerB", func() {
-		defer wg.Done()
-		if p.Absorbed {
-			// a seqno-advanced event settles vb1 without the consumer
-			iv := &ival{vb: 1, seq: 2, a: tick()}
-			settles = append(settles, iv)
-			c.Append(1, marker(2, 2), gocbcore.SimPacket{Kind: "seqadv", Seq: 2})
-			// settled = the listener call of that event has returned
-			c.WaitIdle()
-			iv.b = tick()
-			settle(1, 2)
-			return
-		}
-		if !p.PreSave {
-			if ackAdv(1, 1) {
-				settle(1, 1)
+	if !p.Inject {
+		vrt.GoNamed("ackerB", func() {
+			defer wg.Done()
+			if p.Absorbed {
+				// a seqno-advanced event settles vb1 without the consumer
+				iv := &ival{vb: 1, seq: 2, a: tick()}
+				settles = append(settles, iv)
+				c.Append(1, marker(2, 2), gocbcore.SimPacket{Kind: "seqadv", Seq: 2})
+				// settled = the listener call of that event has returned
+				c.WaitIdle()
+				iv.b = tick()
+				settle(1, 2)
+				return
 			}
-		}
-		if ackAdv(1, 2) {
-			settle(1, 2)
-		}
-	})
+			if !p.PreSave {
+				if ackAdv(1, 1) {
+					settle(1, 1)
+				}
+			}
+			if ackAdv(1, 2) {
+				settle(1, 2)
+			}
+		})
+	}
 	absorbed := map[uint16]uint64{}
 	if p.Reserved {
 		wg.Add(1)
